@@ -80,18 +80,26 @@ def first_of(script):
         f = c.get("first") or dict(typ=T_REN, id=0, pl=dict(k="conn", status=0))
         b = cc.pl_bytes(f.get("pl"))
         lf = f.get("lenfield", 10 + len(b))
-        return dict(kind="whole", typ=f["typ"], lenfield=lf, payload=b, step=ci, id=f.get("id", 0))
+        return dict(kind="cut" if _short_of_claim(lf, b) else "whole", typ=f["typ"], lenfield=lf, payload=b, step=ci, id=f.get("id", 0),
+                    cut=10 + len(b) if _short_of_claim(lf, b) else None)
     for i in range(ci + 1, len(steps)):
         s = steps[i]
         if s["op"] in ("peer_send", "keepalive"):
             b = cc.pl_bytes(s.get("pl"))
             lf = s.get("lenfield", 10 + len(b))
             typ = cc.T_KA if s["op"] == "keepalive" else s["typ"]
-            whole = s.get("cut") is None or s["cut"] >= 10 + len(b)
-            return dict(kind="whole" if whole else "cut", typ=typ, lenfield=lf, payload=b, step=i, cut=s.get("cut"), id=s.get("id", 0))
+            whole = (s.get("cut") is None or s["cut"] >= 10 + len(b)) and not _short_of_claim(lf, b)
+            cut = s.get("cut") if s.get("cut") is not None and s["cut"] < 10 + len(b) else (10 + len(b) if not whole else s.get("cut"))
+            return dict(kind="whole" if whole else "cut", typ=typ, lenfield=lf, payload=b, step=i, cut=cut, id=s.get("id", 0))
         if s["op"] == "peer_close":
             return dict(kind="none", step=i)
     return dict(kind="none", step=None)
+
+
+def _short_of_claim(lenfield, delivered):
+    """the header announces a payload within the buffering limit but LONGER than what the peer delivers: the frame is cut short
+    (however well-formed the delivered part looks by itself). Oversized claims are decided on the header alone: not this case."""
+    return 10 + len(delivered) < lenfield <= 10 + MAXBUF
 
 
 def classify_first(scripts):
@@ -107,7 +115,13 @@ def classify_first(scripts):
         if f is None:
             out.append(dict(good=None, cls="no-connect"))
         elif f["kind"] != "whole":
-            out.append(dict(good=None, cls="no-first" if f["kind"] == "none" else "truncated"))
+            cls = "no-first" if f["kind"] == "none" else "truncated"
+            if f["kind"] == "cut" and f.get("cut") is not None and f["cut"] > 10 and f.get("typ") == T_REN:
+                # what did arrive of the payload reads, by itself, as a complete success event?
+                got = f["payload"][:f["cut"] - 10]
+                if ref_decode_ren([got])[0] == "c 0":
+                    cls = "truncated-after-a-prefix-that-reads-as-success"
+            out.append(dict(good=None, cls=cls))
         elif f["lenfield"] < 10:
             out.append(dict(good=False, cls="bad-length-field"))
         elif f["lenfield"] - 10 > MAXBUF:
@@ -158,6 +172,8 @@ def model_view(script):
             b = cc.pl_bytes(s.get("pl"))
             if lf is not None and lf != 10 + len(b) and lf - 10 > MAXBUF and s.get("cut") is None:
                 pass            # oversized claim, header (and whatever payload) sent: the model needs only the header
+            if lf is not None and _short_of_claim(lf, b) and (s.get("cut") is None or s["cut"] > 10 + len(b)):
+                s["cut"] = 10 + len(b)      # to the model: a frame of the claimed size of which only these bytes arrive
             s["pl"] = _view_pl(s.get("pl"), lf, s["typ"])
     return sc
 
